@@ -51,7 +51,7 @@ def wf_problem(a):
     axes = a.__dict__.get("_axes")
     if not isinstance(vals, np.ndarray):
         return "values is %s" % type(vals).__name__
-    n = len(list.__iter__(axes)) if isinstance(axes, list) else -1
+    n = list.__len__(axes) if isinstance(axes, list) else -1
     if n != vals.ndim:
         return "%d axes for %d dimensions" % (n, vals.ndim)
     names = []
@@ -224,6 +224,8 @@ class ArrayWorld(object):
         self.n_inplace = 0
         self.n_raise = 0
         self.fam_weights = cfg.get("families") or {}
+        self.plan = []
+        self.force_a = None
 
     # -- bookkeeping -------------------------------------------------------------------
     def count(self, key):
@@ -345,8 +347,107 @@ class ArrayWorld(object):
         _init_sink[0] = None
 
     # -- generation --------------------------------------------------------------------
+    # -- scenario plans: derive an alias, populate a cache, mutate one side, probe the other ------------
+    def gen_with(self, rng, opname, a_id, tries=6):
+        for _ in range(tries):
+            self.force_a = a_id
+            try:
+                st = self.ops[opname].gen(self, rng)
+            finally:
+                self.force_a = None
+            if st is not None and a_id in [st.get("a"), st.get("b")] + st.get("others", []):
+                st["op"] = opname
+                return st
+        return None
+
+    def _start_scenario(self, rng):
+        ids = self.arrays(lambda a: a.ndim > 0)
+        if not ids:
+            return
+        a_id = rng.choice(ids)
+        b_id = self.new_id()
+        world = self
+
+        def derive(w, r):
+            a = w.objs.get(a_id)
+            if a is None:
+                return None
+            if r.random() < 0.45:  # a slice along one dimension keeps the label buffer
+                idx = []
+                k = r.randrange(a.ndim)
+                for i, ax in enumerate(list.__iter__(a._axes)):
+                    labs = plain_labels(ax)
+                    if i == k and labs:
+                        lo, hi = sorted(r.sample(range(len(labs)), min(2, len(labs))))[0], len(labs) - 1
+                        if r.random() < 0.5:
+                            idx.append({"k": "sl", "v": [labs[lo], labs[hi], None]})
+                            via = "[]"
+                        else:
+                            idx.append({"k": "sl", "v": [lo, None, None]})
+                            via = "ix"
+                    else:
+                        idx.append({"k": "all"})
+                        via = locals().get("via", "[]")
+                if any(e["k"] == "sl" and isinstance(e["v"][0], int) and via == "ix" for e in idx) or via == "ix":
+                    idx = [e if e["k"] != "sl" or isinstance(e["v"][0], int) or e["v"][0] is None else {"k": "all"} for e in idx]
+                    return {"op": "ix", "a": a_id, "idx": idx, "via": "ix", "out": b_id}
+                return {"op": "getitem", "a": a_id, "idx": idx, "via": "[]", "out": b_id}
+            nm = r.choice(["transpose", "squeeze", "flatten", "newaxis", "unary", "flatten", "reshape", "transpose"])
+            st = w.gen_with(r, nm, a_id)
+            if st is not None:
+                st["out"] = b_id
+            return st
+
+        def query(w, r):
+            tgt = r.choice([a_id, b_id, b_id])
+            if tgt not in w.objs:
+                return None
+            st = w.gen_with(r, "query", tgt)
+            if st is not None and r.random() < 0.7 and w.objs[tgt].ndim > 0:
+                st["what"] = "mono"
+                st["axis"] = r.randrange(w.objs[tgt].ndim)
+                st.pop("lab", None)
+            return st
+
+        side = rng.random() < 0.7
+
+        def mutate(w, r):
+            tgt = a_id if side else b_id
+            if tgt not in w.objs:
+                return None
+            return w.gen_with(r, r.choice(["relabel", "relabel", "relabel", "rename", "setitem"]), tgt)
+
+        def probe(w, r):
+            tgt = b_id if side else a_id
+            if tgt not in w.objs:
+                return None
+            st = w.gen_with(r, "probe", tgt)
+            if st is not None:
+                st["mono"] = True
+            return st
+
+        plan = [derive]
+        if rng.random() < 0.8:
+            plan.append(query)
+        plan.append(mutate)
+        if rng.random() < 0.3:
+            plan.append(mutate)
+        plan.append(probe)
+        self.plan = plan
+
     def gen_step(self, rng):
         cfg = self.cfg
+        plan = getattr(self, "plan", None)
+        while plan:
+            f = plan.pop(0)
+            st = f(self, rng)
+            if st is not None:
+                return st
+            self.plan = plan = []
+        if self.order and rng.random() < cfg.get("scenario_rate", 0.0) and len(self.order) < cfg.get("pool", 6) + 2:
+            self._start_scenario(rng)
+            if self.plan:
+                return self.gen_step(rng)
         if len(self.order) >= cfg.get("pool", 6):
             victim = rng.choice(self.order)
             return {"op": "drop", "a": victim}
@@ -410,6 +511,8 @@ class ArrayWorld(object):
         outcome = "ok:" + V.result_class(result) if exc is None else "raise:" + type(exc).__name__
         if exc is None:
             self.n_ok += 1
+            if op.kind == "inplace":
+                self.n_inplace += 1
         else:
             self.n_raise += 1
         # ---- C15
@@ -422,7 +525,6 @@ class ArrayWorld(object):
                             opname, outcome, oid, V.describe_snap_diff(before[oid], after)))
                 self.count("c15:checked_pure")
             else:
-                self.n_inplace += 1
                 tgt = op.target(step)
                 allowed = set()
                 for t in tgt:
